@@ -1,4 +1,4 @@
-import FpgoVerif.Proofs.C04Step
+import FpgoVerif.Proofs.C04Content
 import FpgoVerif.Gen.StreamEffects
 /-! Property theorems for C04 — Stream / Set / StreamSet are persistent.
 
@@ -137,37 +137,6 @@ theorem C04_ifaceRemove_frame (w : World) (p : Nat) (i : Int) :
         simp [setStrHdr, allocArr, strHdr, List.getD_eq_getElem?_getD, Ne.symm hq]
   · exact ⟨fun _ _ _ => rfl, fun _ _ => rfl, rfl, rfl⟩
 
-/-- interface{} `Remove(i)` leaves the receiver — which IS the returned stream
-    (`C04_ifaceRemove_returns_receiver`) — holding the sequence without its `i`-th element (any other index,
-    negative ones included: unchanged).  `_partial`: stated under the explicit hypotheses that the receiver's
-    header lies within its live backing array and `len ≤ cap` (true of every header the modelled operations
-    build, but not part of `Wf`). -/
-theorem C04_ifaceRemove_content_partial (w : World) (p : Nat) (i : Int)
-    (hp : p < w.strs.length) (ha : (w.strHdr p).arr < w.arrs.length)
-    (hb : (w.strHdr p).off + (w.strHdr p).len ≤ (w.arrAt (w.strHdr p).arr).length)
-    (hc : (w.strHdr p).len ≤ (w.strHdr p).cap) :
-    (w.strRemoveI p i).1.strContent p = Spec.removeAt (w.strContent p) i := by
-  have hcl : (w.strContent p).length = (w.strHdr p).len := by
-    simp [strContent, sliceContent, List.length_take, List.length_drop]; omega
-  unfold strRemoveI Spec.removeAt
-  simp only [hcl]
-  split
-  · rename_i hr
-    have hi : i.toNat < (w.strHdr p).len := by omega
-    have htl : ((w.sliceContent (w.strHdr p)).drop (i.toNat + 1)).length = (w.strHdr p).len - (i.toNat + 1) := by
-      have := hcl; simp only [strContent] at this; simp [this]
-    have hfit : i.toNat + ((w.sliceContent (w.strHdr p)).drop (i.toNat + 1)).length ≤ (w.strHdr p).cap := by omega
-    simp only [appendSlice, hfit, if_true]
-    have := shift_list (w.arrAt (w.strHdr p).arr) (w.strHdr p).off (w.strHdr p).len i.toNat hi hb
-    simp only at this
-    simp only [strContent, sliceContent, strHdr, setStrHdr, writeArr, arrAt, List.getD_eq_getElem?_getD,
-      List.getElem?_set, hp, if_true, Option.getD_some] at this ⊢
-    have ha' := ha
-    simp only [strHdr, List.getD_eq_getElem?_getD] at ha'
-    rw [if_pos ha']
-    exact this
-  · rfl
-
 /-! ### network/simpleHTTP.go: the interceptor list is used persistently -/
 
 /-- `AddInterceptor` / `RemoveInterceptor` / `ClearInterceptor` on instance `p` (for any interceptor list) leave
@@ -260,13 +229,43 @@ theorem C04_clone_detached (w : World) (p : Nat) :
     show (((w.strClone p).1.arrAt w.arrs.length).drop 0).take (w.sliceContent (w.strHdr p)).length = _
     rw [h]; simp
 
-/-- `Len` agrees with the element sequence whenever the header lies within its backing array (which every
-    header built by the modelled operations does); `Get(i)` and `Contains(x)` are evaluated on the element
-    sequence by definition of `exec`. -/
-theorem C04_len_agrees_partial (w : World) (p : Nat)
-    (hb : (w.strHdr p).off + (w.strHdr p).len ≤ (w.arrAt (w.strHdr p).arr).length) :
-    (w.strContent p).length = (w.strHdr p).len := by
-  simp [strContent, sliceContent, List.length_take, List.length_drop]; omega
+/-- `Len` agrees with the element sequence in every well-formed world (hence in every reachable state:
+    `C04_reachable_inv`); `Get(i)` and `Contains(x)` are evaluated on the element sequence by definition of `exec`. -/
+theorem C04_len_agrees {w : World} (hw : Wf w) (p : Nat) : (w.strContent p).length = (w.strHdr p).len := by
+  have h := strHdr_ok hw p
+  simp [strContent, sliceContent, List.length_take, List.length_drop]
+  have := h.2.1; have := h.2.2; omega
+
+/-- every slice header of a reachable state lies inside its live backing array and has `len ≤ cap` -/
+theorem C04_headers_in_bounds (iface : Bool) (pre : List Op) (p : Nat) :
+    sliceOk (run iface State.init pre).w ((run iface State.init pre).w.strHdr p) :=
+  strHdr_ok (C04_reachable_inv iface pre Inv.init).wf p
+
+/-- interface{} `Remove(i)` leaves the receiver — which IS the returned stream — holding the sequence without
+    its `i`-th element (any other index, negative ones included: unchanged), in every well-formed world. -/
+theorem C04_ifaceRemove_content {w : World} (hw : Wf w) {p : Nat} (hp : p < w.strs.length) (i : Int) :
+    (w.strRemoveI p i).1.strContent p = Spec.removeAt (w.strContent p) i := by
+  have h := strHdr_ok hw p
+  exact ifaceRemove_content_of_bounds w p i hp h.1 (by have := h.2.1; have := h.2.2; omega) h.2.2
+
+/-- `Append(items...)`: a new stream holding the receiver's elements followed by the items -/
+theorem C04_append_content {w : World} (hw : Wf w) {p : Nat} (hp : p < w.strs.length) (items : List Int) :
+    (w.strAppend p items).1.strContent (w.strAppend p items).2 = w.strContent p ++ items :=
+  strAppend_content hw hp items
+
+/-- `Concat(slices...)`: the receiver's elements followed by the elements of every slice, in order (the
+    receiver itself when called without slices) -/
+theorem C04_concat_content {w : World} (hw : Wf w) (p : Nat) (slices : List Slice)
+    (hs : ∀ s ∈ slices, s.arr < w.arrs.length) :
+    (w.strConcat p slices).1.strContent (w.strConcat p slices).2
+      = slices.foldl (fun acc s => acc ++ w.sliceContent s) (w.strContent p) :=
+  strConcat_content hw p slices hs
+
+/-- `Extend(streams...)`: the receiver's elements followed by the elements of every non-nil stream, in order -/
+theorem C04_extend_content (w : World) (p : Nat) (args : List (Option Nat)) :
+    (w.strExtend p args).1.strContent (w.strExtend p args).2
+      = args.foldl (fun acc a => match a with | none => acc | some q => acc ++ w.strContent q) (w.strContent p) :=
+  strExtend_content w p args
 
 /-! ### the regenerated destructive-effect table (`extract/c04.go` → `Gen/StreamEffects.lean`) -/
 
@@ -316,13 +315,6 @@ example : Inv (run false State.init demoOps) := C04_reachable_inv false demoOps 
 example : content (run false State.init (demoOps ++ [.s1 "s3" "s0" .reverse])).w (.str (some 0)) = .str [1, 2, 1] := by
   decide
 example : (Op.s1 "s3" "s0" .reverse).isMutator true = false := rfl
-/-- the hypothesis of `C04_len_agrees_partial` holds e.g. for `s0` above -/
-example : ((run false State.init demoOps).w.strHdr 0).off + ((run false State.init demoOps).w.strHdr 0).len
-    ≤ ((run false State.init demoOps).w.arrAt ((run false State.init demoOps).w.strHdr 0).arr).length := by decide
-/-- the hypotheses of `C04_ifaceRemove_content_partial` hold e.g. for `s0` of the demo state -/
-example : let w := (run true State.init demoOps).w
-    0 < w.strs.length ∧ (w.strHdr 0).arr < w.arrs.length ∧
-    (w.strHdr 0).off + (w.strHdr 0).len ≤ (w.arrAt (w.strHdr 0).arr).length ∧ (w.strHdr 0).len ≤ (w.strHdr 0).cap := by decide
 /-- the interface{} `Remove` really is a mutator in the model: `[1,2,3].Remove(0)` rewrites the receiver's
     storage (`a0` becomes `[2,3,3]`) — which is why it is excluded from `C04_step_persistent`. -/
 example : content (run true State.init [.arr "a0" 3 [1, 2, 3], .sfrom "s0" "a0", .s1 "s1" "s0" (.remove 0)]).w
